@@ -51,10 +51,23 @@ fn ident_x(n: usize) -> DenseMatrix<f64> {
     DenseMatrix::from_array(n, 2, &v)
 }
 
+/// The three public ways of configuring a KFold; the way used is part of the configuration
+/// space (a builder that forgets an earlier setting breaks the property only for one order).
+fn make_kfold(how: i64, k: usize, shuffle: bool) -> KFold {
+    match how.rem_euclid(3) {
+        0 => KFold::default().with_n_splits(k).with_shuffle(shuffle),
+        1 => KFold::default().with_shuffle(shuffle).with_n_splits(k),
+        _ => KFold {
+            n_splits: k,
+            shuffle,
+        },
+    }
+}
+
 fn kfold_event(run: i64, n: usize, k: usize, shuffle: bool) -> Value {
     let x = ident_x(n);
     let r = guard(|| {
-        let kf = KFold::default().with_n_splits(k).with_shuffle(shuffle);
+        let kf = make_kfold(run, k, shuffle);
         kf.split(&x).collect::<Vec<(Vec<usize>, Vec<usize>)>>()
     });
     match r {
@@ -63,10 +76,10 @@ fn kfold_event(run: i64, n: usize, k: usize, shuffle: bool) -> Value {
                 .iter()
                 .map(|(tr, te)| json!({"train": tr, "test": te}))
                 .collect();
-            json!({"run": run, "ev": "KFold", "n": n, "k": k, "shuffle": shuffle, "status": "ok", "splits": splits})
+            json!({"run": run, "ev": "KFold", "n": n, "k": k, "shuffle": shuffle, "how": run.rem_euclid(3), "status": "ok", "splits": splits})
         }
         Err(_) => {
-            json!({"run": run, "ev": "KFold", "n": n, "k": k, "shuffle": shuffle, "status": "panic"})
+            json!({"run": run, "ev": "KFold", "n": n, "k": k, "shuffle": shuffle, "how": run.rem_euclid(3), "status": "panic"})
         }
     }
 }
@@ -125,7 +138,7 @@ fn cv_events(run: i64, n: usize, k: usize, shuffle: bool, predict_kind: bool, ou
     let log: Log = Rc::new(RefCell::new(Vec::new()));
     let fitno = Rc::new(RefCell::new(0i64));
     let kind = if predict_kind { "predict" } else { "validate" };
-    out.emit(json!({"run": run, "ev": "CVStart", "kind": kind, "n": n, "k": k, "shuffle": shuffle}));
+    out.emit(json!({"run": run, "ev": "CVStart", "kind": kind, "n": n, "k": k, "shuffle": shuffle, "how": run.rem_euclid(3)}));
     let fit = {
         let log = log.clone();
         let fitno = fitno.clone();
@@ -142,7 +155,7 @@ fn cv_events(run: i64, n: usize, k: usize, shuffle: bool, predict_kind: bool, ou
             })
         }
     };
-    let cv = KFold::default().with_n_splits(k).with_shuffle(shuffle);
+    let cv = make_kfold(run, k, shuffle);
     let (status, done) = if predict_kind {
         let r = guard(|| cross_val_predict(fit, &x, &y, (), cv));
         match r {
